@@ -36,10 +36,10 @@ Section HyperModel.
   | TLeaf (k : key) (v : V) (hash : D)       (* shortcut leaf (or a real leaf at height 0) *)
   | TNode (hash : D) (l r : ytree).
 
-  (* hash of a subtree; ds = defaults from this height downwards *)
-  Definition thash (ds : list D) (dflt : D) (t : ytree) : D :=
+  (* hash of a subtree; dflt = default hash of an empty subtree at this height *)
+  Definition thash (dflt : D) (t : ytree) : D :=
     match t with
-    | TEmpty => hd dflt ds
+    | TEmpty => dflt
     | TLeaf _ _ x => x
     | TNode x _ _ => x
     end.
@@ -62,8 +62,8 @@ Section HyperModel.
             let node :=
               let l := ybuild h' (tl ds) (pre ++ [false]) (child false sub) in
               let r := ybuild h' (tl ds) (pre ++ [true]) (child true sub) in
-              let dd := hd (H YDef0) ds in
-              TNode (H (YNode (thash (tl ds) dd r) (thash (tl ds) dd l) (pre, h))) l r in
+              let dc := hd (H YDef0) (tl ds) in      (* default hash one level down *)
+              TNode (H (YNode (thash dc r) (thash dc l) (pre, h))) l r in
             match rest with
             | [] => if Nat.leb h limit then TLeaf k0 v0 (H (YLeaf v0 (pre, h))) else node
             | _ => node
@@ -94,7 +94,7 @@ Section HyperModel.
   (* ds = dlist n, passed in so that an executing instance computes the default hashes once *)
   Definition ytree_of (n : nat) (ds : list D) (m : list (key * V)) : ytree :=
     ybuild n ds [] (map (fun kv => (fst kv, kv)) m).
-  Definition yroot (ds : list D) (t : ytree) : D := thash ds (H YDef0) t.
+  Definition yroot (ds : list D) (t : ytree) : D := thash (hd (H YDef0) ds) t.
 
   (* HyperTree.QueryMembership: value found (only if the shortcut leaf holds exactly this key) and the
      sibling hashes from the root down to that leaf *)
@@ -106,17 +106,21 @@ Section HyperModel.
     | TNode _ l r =>
         match h, kb with
         | S h', b :: kb' =>
-            let dd := hd (H YDef0) ds in
+            let dc := hd (H YDef0) (tl ds) in
             if b then
               let '(v, p) := yfind h' (tl ds) (pre ++ [true]) r kb' full in
-              (v, ((pre ++ [false], h'), thash (tl ds) dd l) :: p)
+              (v, ((pre ++ [false], h'), thash dc l) :: p)
             else
               let '(v, p) := yfind h' (tl ds) (pre ++ [false]) l kb' full in
-              (v, ((pre ++ [true], h'), thash (tl ds) dd r) :: p)
+              (v, ((pre ++ [true], h'), thash dc r) :: p)
         | _, _ => (None, [])
         end
     end.
   Definition hyper_find (n : nat) (ds : list D) (t : ytree) (k : key) := yfind n ds [] t k k.
+
+  Definition hpos_eqb (x y : hpos) : bool := key_eqb (fst x) (fst y) && Nat.eqb (snd x) (snd y).
+  (* an audit path is a Go map keyed by position: a later write wins *)
+  Definition hpath_get (p : list (hpos * D)) : hpos -> option D := fun q => assoc hpos_eqb q (rev p).
 
   (* hyper/verify.go pruneToVerify + interpretation: recompute the root from the leaf at height lh;
      None = a path entry is missing (the Go code panics there at the pinned commit) *)
